@@ -50,7 +50,7 @@ def run_chunked(case):
     values = emb.enc(case["vals"])
     mask = build_mask(case["mask"], n)
     tr = {"kernel": KERNEL_OF[op], "keys": ids, "vals": list(case["vals"]), "mask": case["mask"], "nonull": int(emb.nonull),
-          "cfg": {k: case.get(k) for k in ("T", "klens", "kenc", "emb", "sort", "pre")}, "internal": 0,
+          "cfg": {k: case.get(k) for k in ("T", "klens", "kenc", "emb", "sort", "pre", "tf")}, "internal": 0,
           "klens": [n], "rep": "global", "labels": [], "pieces": [], "final": [], "first": 0}
     _verif.drain()
     try:
@@ -65,10 +65,12 @@ def run_chunked(case):
         tr["rep"] = "pointers" if getattr(gb, "_group_key_pointers", None) is not None else "global"
         tr["labels"] = [e.dec(x) for x in gb.result_index.tolist()]
         _verif.drain()
+        tf = bool(case.get("tf"))
+        kw = dict(transform=True) if tf else dict(observed_only=False)
         if op == "size":
-            out = call(gb.size, mask=mask, observed_only=False)
+            out = call(gb.size, mask=mask, **kw)
         else:
-            out = call(getattr(gb, op), values, mask=mask, observed_only=False)
+            out = call(getattr(gb, op), values, mask=mask, **kw)
     except Exception as ex:
         tr.update(out="raise", exc=type(ex).__name__, msg=str(ex)[:200])
         return tr
@@ -84,9 +86,12 @@ def run_chunked(case):
     _verif.drain()
     arr, index = api.to_1d(out)
     res, _ = api.dec_values(op, arr, emb)
-    by_label = {e.dec(x): r for x, r in zip(index.tolist(), res)}
-    tr["final"] = [by_label.get(lab, -996) for lab in tr["labels"]]
-    tr["nfinal"] = len(res)
+    if tf:
+        tr["tout"] = res                # one value per input row
+    else:
+        by_label = {e.dec(x): r for x, r in zip(index.tolist(), res)}
+        tr["final"] = [by_label.get(lab, -996) for lab in tr["labels"]]
+        tr["nfinal"] = len(res)
     if ev and tr["chunked"]:
         x = ev[-1]          # (size / count_ikey calls do not pass through the hook; the reduction itself is the last event)
         try:
